@@ -32,11 +32,30 @@ Hardening pass (HARDENING.md classes A-D):
      precision-32 run of a history comes immediately BEFORE the float64 run of the same history (same shapes, same dx),
      which is judged at the full float64 tolerance (32 -> 64 switch in one process);
   D  1xN, Nx1, 3x40 and 40x3 base objects (the first and third also in the quick tier).
+
+Hardening pass 2 (HARDENING2.md classes E, F):
+  E  `forms_workload`: for every base object, data dtype kind (float64, float32, and int64 / int32 for the operations that take integer
+     data today) and cache-population state before the call (fresh, x/y read, r/t read, after latcal + r, after crop + x), every accepted
+     form of every argument of the constructor (dx as python / numpy scalars / 0-d array / positional / omitted-then-latcal, wavelength
+     omitted / None / number / from meta, intensity, all positional) and of fill, pad (samples= | shape= in every container, value omitted
+     / positional / keyword), latcal, spike_clip, mask (C / F / strided / transposed-view boolean arrays, keyword), filter (typ omitted /
+     short / long names, keywords) must leave the state the canonical call leaves — data exactly, dx, x, y, r, t and the statistics of a deep
+     copy — right after the call AND after a short canonical continuation (latcal + read r | read x, crop, read t | pad, recenter), and
+     that state must be coherent (M1').  Keys `C12/<op>/form:<argument>=<form>/...`.  The table of accepted forms is the comment above
+     CTOR_FORMS (integer / float / list masks are NOT the same input on the current tree: out of domain).  The history alphabet draws
+     the same forms (pad containers, default fill omitted, fill / spike_clip / latcal by keyword / 0-d array / numpy int, masks as strided
+     views or by keyword, long filter names) and half of the histories construct the object through a non-canonical constructor form.
+  F  `foreign` joins the alphabet (19 classes) and a prelude runs before one history in sixteen: vp/foreign.py drives the other consumers
+     of make_xy_grid / fftrange / forward_ft_unit (shifted matrix-DFT / chirp-Z propagations, psd, render_synthetic_surface, other
+     Interferograms' latcal / recenter / pad, in-place edits of returned grids, precision 32) on the axis lengths of the object; the
+     invariants after it are those of a read.
 """
 import copy
 import itertools
 
 import numpy as np
+
+from ..foreign import foreign_traffic
 
 RULE = ('planned operation sequences over an 18-class alphabet (read-x/y/r/t, read-slices, crop, pad, mask, fill, spike_clip, '
         'remove_piston/tiptilt/power, recenter, latcal, strip_latcal, filter, copy): ALL sequences up to a depth plus seeded '
@@ -47,7 +66,9 @@ RULE = ('planned operation sequences over an 18-class alphabet (read-x/y/r/t, re
         'history, precision 64 / float32 data, precision 32 / float64 data followed by the float64 run}; op variants (pad samples/shape x NaN/finite fill, mask circle/random/edge, latcal scale, clip level, filter '
         'type) drawn from a per-history seeded rng and written into the descriptor. A history is non-trivial when it '
         'contains at least one state-changing operation; distinct = distinct (base, dx, fully-specified op list). '
-        'events list every (cache-population-state x operation) pair executed')
+        'events list every (cache-population-state x operation) pair executed; argument forms (class E): every accepted form of every '
+        'constructor / method argument x base object x data dtype kind x five cache-population states x four canonical continuations, '
+        'against the canonical call; foreign traffic (class F) as a 19th operation class and as a prelude before 1 history in 16')
 ASSUMPTIONS = ['deepcopy of an Interferogram is a faithful snapshot of what the user would read (M1\')',
                'the polar form of a grid is (hypot(x,y), arctan2(y,x)); angles compared modulo 2 pi and not at r=0',
                'pad may place the old block anywhere as long as it is moved rigidly (placement itself is C04)',
@@ -58,15 +79,24 @@ ASSUMPTIONS = ['deepcopy of an Interferogram is a faithful snapshot of what the 
                'after a recorded M1 violation the stale polar caches are dropped (through the public r / t setters) so monitoring can continue',
                'M1 reads the private fields _x,_y,_r,_t only when the implementation has them; otherwise it is skipped and counted, is not a '
                'required monitor, and the decision rests on M1\' / M2 / M3, which use the public API only',
+               'tilt / power refit and idempotence laws: relative threshold max(1e-9 | float32 regime 1e-3, 100 * cond(design matrix on the valid '
+               'samples, columns as prysm builds them) * eps(float32 in the float32 regime, else float64)); when that bound exceeds 1e-2 the law '
+               'cannot decide on that support and the step is excluded and counted; the piston law has a design of condition number 1 '
+               '(100 * eps32 = 1.2e-5 is below its 1e-4 threshold); measured (residual / (cond * eps32)) is reported in the notes',
                'float32 thresholds (coordinates built under precision 32: 1e-4 relative; statistics / piston / refit laws on '
                'float32 data: 1e-4 .. 1e-3 relative) are >= 3 decades above the measured round-off, which is reported in the notes',
-               'a mask array is not modified by mask(): the shadow model predicts from a pristine copy of every mask in the pool']
+               'a mask array is not modified by mask(): the shadow model predicts from a pristine copy of every mask in the pool',
+               'the set of argument forms treated as the same mathematical input was fixed from the current tree (/repo @ faa8443, table in the '
+               'module above CTOR_FORMS); a form for which the canonical call itself raises or leaves incoherent coordinates is not compared '
+               '(skipped and counted: the history workload judges the canonical call)',
+               'fill() == fill(0), spike_clip() == spike_clip(3), pad(samples=s) == pad(nan, samples=s), filter(fc) == filter(fc, "lowpass"): '
+               'the documented defaults']
 REQUIRED = ['M1.cache-coherence(private)', 'M1\'.user-view(deepcopy)', 'M2.shadow-nan-set', 'M3.piston-zero-mean',
-            'M3.tilt-refit', 'M3.power-refit', 'M3.crop-laws', 'M3.statistics']
+            'M3.tilt-refit', 'M3.power-refit', 'M3.crop-laws', 'M3.statistics', 'forms.construct', 'forms.operations']
 
 OPS = ['read-x', 'read-y', 'read-r', 'read-t', 'crop', 'pad', 'mask', 'fill', 'spike_clip', 'remove_piston',
-       'remove_tiptilt', 'remove_power', 'recenter', 'latcal', 'strip_latcal', 'filter', 'copy', 'read-slices']
-READS = {'read-x', 'read-y', 'read-r', 'read-t', 'read-slices'}
+       'remove_tiptilt', 'remove_power', 'recenter', 'latcal', 'strip_latcal', 'filter', 'copy', 'read-slices', 'foreign']
+READS = {'read-x', 'read-y', 'read-r', 'read-t', 'read-slices', 'foreign'}
 
 BASES_Q = ['sq-even', 'sq-odd-circ', 'nonsq', 'ragged', 'line', 'wide']
 BASES_T = BASES_Q + ['nonsq-circ', 'dropouts', 'col', 'tall', 'sq-big']
@@ -253,22 +283,26 @@ def same(a, b):
 # ------------------------------------------------------------------------------------------ plan generation
 def draw_variant(op, rng):
     if op == 'pad':
-        kind = ['samples', 'samples2', 'shape2', 'shape'][int(rng.integers(4))]
+        kind = ['samples', 'samples2', 'shape2', 'shape', 'samples2@list', 'samples2@ndarray', 'samples2@np-ints', 'shape2@list', 'shape2@ndarray',
+                'shape2@np-ints', 'samples@default-value', 'shape2@value-kw'][int(rng.integers(12))]
         val = ['nan', '0', '1.5'][int(rng.integers(3))]
+        if kind == 'samples@default-value':
+            val = 'nan'
         k0, k1 = int(rng.integers(0, 4)), int(rng.integers(1, 4))
         return f'pad:{kind}:{k0},{k1}:{val}'
     if op == 'mask':
         kind = ['circle', 'random', 'edge'][int(rng.integers(3))]
         # a small pool of seeds per history, so that the SAME mask object is passed again later in the history
-        return f'mask:{kind}:{int(rng.integers(1, 4))}{["", "F"][int(rng.integers(2))]}'
+        return f'mask:{kind}:{int(rng.integers(1, 4))}{["", "F", "S", "K"][int(rng.integers(4))]}'
     if op == 'fill':
-        return 'fill:' + ['0', '2.5', '2.5@np32', '0@np64'][int(rng.integers(4))]
+        return 'fill:' + ['0', '2.5', '2.5@np32', '0@np64', '0@omitted', '2.5@kw', '2@int', '2.5@0d'][int(rng.integers(8))]
     if op == 'spike_clip':
-        return 'spike_clip:' + ['3', '2', '1.5', '2@int'][int(rng.integers(4))]
+        return 'spike_clip:' + ['3', '2', '1.5', '2@int', '3@omitted', '2@kw', '1.5@np64', '2@0d'][int(rng.integers(8))]
     if op == 'latcal':
-        return 'latcal:' + ['2.0', '0.1', '3.3', '2@int', '0.5@np32', '3.3@np64'][int(rng.integers(6))]
+        return 'latcal:' + ['2.0', '0.1', '3.3', '2@int', '0.5@np32', '3.3@np64', '3.3@kw', '0.1@0d', '2@npint'][int(rng.integers(9))]
     if op == 'filter':
-        return 'filter:' + ['lp', 'hp'][int(rng.integers(2))] + ':' + ['0.3', '0.6'][int(rng.integers(2))]
+        return ('filter:' + ['lp', 'hp', 'lowpass', 'highpass', 'lowpass@omitted', 'lp@kw'][int(rng.integers(6))] + ':'
+                + ['0.3', '0.6'][int(rng.integers(2))])
     return op
 
 
@@ -277,15 +311,30 @@ def op_class(opv):
 
 
 def scalar_arg(txt):
-    """'2.5' -> 2.5 ; '2@int' -> 2 (python int) ; '0.5@np32' -> numpy.float32(0.5) ; '3.3@np64' -> numpy.float64(3.3)."""
+    """'2.5' -> 2.5 ; '2@int' -> 2 (python int) ; '0.5@np32' -> numpy.float32(0.5) ; '3.3@np64' -> numpy.float64(3.3) ; '2@npint' ->
+    numpy.int64(2) ; '0.1@0d' -> 0-d float64 array ; '@kw' / '@omitted' only say HOW the value is passed."""
     v, _, c = txt.partition('@')
     if c == 'int':
         return int(v)
+    if c == 'npint':
+        return np.int64(int(v))
     if c == 'np32':
         return np.float32(v)
     if c == 'np64':
         return np.float64(v)
+    if c == '0d':
+        return np.array(float(v))
     return float(v)
+
+
+def shape_container(kind, shp):
+    if kind == 'list':
+        return [int(v) for v in shp]
+    if kind == 'ndarray':
+        return np.array(shp, dtype=np.int64)
+    if kind == 'np-ints':
+        return (np.int32(shp[0]), np.int64(shp[1]))
+    return tuple(int(v) for v in shp)
 
 
 def make_mask(kind, seed, shape):
@@ -322,7 +371,7 @@ class History:
         self.prec = int(desc.get('prec', 64))
         self.lowp = self.prec == 32 or desc.get('dtype', 'float64') == 'float32'
         self.rt = 1e-9 if self.prec == 64 else 1e-4            # coordinates are built in the configured precision
-        self.obj = Interferogram(relayout(z, desc.get('layout', 'C')), dx=desc['dx'])
+        self.obj = construct(Interferogram, relayout(z, desc.get('layout', 'C')), desc['dx'], desc.get('ctor', 'dx=py'))
         fin0 = z[np.isfinite(z)]
         self.scale_hi = float(np.abs(fin0).max()) if fin0.size else 1.0     # largest data magnitude this history has seen
         self.populated = set()   # inferred cache population ('xy', 'rt') from the public reads / rebuilding ops of this history
@@ -344,11 +393,11 @@ class History:
 
     def pooled_mask(self, opv, shape):
         _, kind, seed = opv.split(':')
-        forder = seed.endswith('F')
+        lay = seed[-1] if seed[-1] in 'FSK' else ''
         key = (kind, seed, tuple(shape))
         if key not in self.masks:
-            m = make_mask(kind, seed.rstrip('F'), shape)
-            self.masks[key] = (np.asfortranarray(m) if forder else m, m.copy())
+            m = make_mask(kind, seed.rstrip('FSK'), shape)
+            self.masks[key] = (np.asfortranarray(m) if lay == 'F' else relayout(m, 'strided') if lay == 'S' else m, m.copy())
         else:
             self.ctx.event('mask.same-object-passed-again')
         return self.masks[key]
@@ -465,46 +514,62 @@ class History:
         try:
             if opc == 'read-slices':
                 o.slices()
-            elif opc in READS:
+            elif opc in READS and opc != 'foreign':
                 getattr(o, opc[-1])
             elif opc == 'copy':
                 self.obj = o = o.copy()
             elif opc == 'crop':
                 o.crop()
+            elif opc == 'foreign':
+                foreign_traffic(ctx, list(shape), heavy='mini')     # class F: other consumers of the shared grid / frequency helpers
             elif opc == 'pad':
                 _, kind, ks, val = opv.split(':')
+                kind, _, cont = kind.partition('@')
                 k0, k1 = (int(v) for v in ks.split(','))
                 value = float('nan') if val == 'nan' else float(val)
-                if kind == 'samples':
+                if kind == 'samples' and cont == 'default-value':
+                    o.pad(samples=k1)                                   # the documented default fill (NaN), omitted
+                    arg = (shape[0] + k1, shape[1] + k1)
+                elif kind == 'samples':
                     o.pad(value, samples=k1)
                     arg = (shape[0] + k1, shape[1] + k1)
                 elif kind == 'samples2':
-                    o.pad(value, samples=(k0, k1))
+                    o.pad(value, samples=shape_container(cont, (k0, k1)))
                     arg = (shape[0] + k0, shape[1] + k1)
                 elif kind == 'shape2':
                     arg = (shape[0] + k1, shape[1] + k0)
-                    o.pad(value, shape=arg)
+                    if cont == 'value-kw':
+                        o.pad(value=value, shape=arg)
+                    else:
+                        o.pad(value, shape=shape_container(cont, arg))
                 else:
                     n = max(shape) + k1
                     arg = (n, n)
                     o.pad(value, shape=n)
             elif opc == 'mask':
-                o.mask(marg)
+                if opv.endswith('K'):
+                    o.mask(mask=marg)
+                else:
+                    o.mask(marg)
             elif opc == 'fill':
                 a_ = scalar_arg(opv.split(':')[1])
                 arg = float(a_)
-                o.fill(a_)
+                how = opv.split('@')[-1]
+                o.fill() if how == 'omitted' else o.fill(_with=a_) if how == 'kw' else o.fill(a_)
             elif opc == 'spike_clip':
                 a_ = scalar_arg(opv.split(':')[1])
                 arg = float(a_)
-                o.spike_clip(a_)
+                how = opv.split('@')[-1]
+                o.spike_clip() if how == 'omitted' else o.spike_clip(nsigma=a_) if how == 'kw' else o.spike_clip(a_)
             elif opc == 'latcal':
                 a_ = scalar_arg(opv.split(':')[1])
                 arg = float(a_)
-                o.latcal(a_)
+                o.latcal(plate_scale=a_) if opv.endswith('@kw') else o.latcal(a_)
             elif opc == 'filter':
                 _, typ, frac = opv.split(':')
-                o.filter(float(frac) / (2 * float(o.dx)), typ)
+                typ, _, how = typ.partition('@')
+                fc = float(frac) / (2 * float(o.dx))
+                o.filter(fc) if how == 'omitted' else o.filter(fc=np.float64(fc), typ=typ) if how == 'kw' else o.filter(fc, typ)
             else:
                 getattr(o, opc)()
         except Exception as e:   # an exception on an in-domain step
@@ -603,21 +668,34 @@ class History:
         ctx, o, desc = self.ctx, self.obj, self.desc
         after = o.data
         valid = ~bnan
-        sc = self.floor(float(np.abs(before[valid]).max()))
+        # scale: the data before AND after (on an ill-conditioned support the removed term, and so the result, can be much larger than the input)
+        sc = self.floor(max(float(np.abs(before[valid]).max()), float(np.abs(after[valid]).max()) if after.shape == before.shape else 0.0))
         c = copy.deepcopy(o)
         if which == 'tilt':
             A = np.stack([c.x[valid], c.y[valid]], axis=1).astype(float)
         else:
             A = self._power_design(after.shape, valid)
+        # conditioning-aware threshold: prysm fits and subtracts in the floating point type of the data / coordinates, so what a re-fit can
+        # still find is round-off amplified by the condition number of the design matrix on the valid samples (columns as prysm builds
+        # them: x, y in the object's coordinates for the plane; rho^2, 1 on the [-1, 1] grid for the power term).  tol = max(fixed
+        # threshold, 100 * cond * eps); where that bound exceeds 1e-2 the law cannot decide: excluded and counted.
+        sv = np.linalg.svd(A, compute_uv=False)
+        cond = float(sv[0] / sv[-1]) if sv[-1] > 0 else float('inf')
+        bound = 100.0 * cond * (1.2e-7 if self.lowp else 2.3e-16)
+        name = 'remove_tiptilt' if which == 'tilt' else 'remove_power'
+        if not bound <= 1e-2:
+            ctx.skip(f'{name}: refit law undecidable, 100 * cond(design on the valid samples) * eps(dtype) exceeds 1e-2 (ill-conditioned support)')
+            return
+        rtol = max(self.tol(1e-9, 1e-3), bound)
         coef = np.linalg.lstsq(A, after[valid].astype(float), rcond=None)[0]
         ncoef = 2 if which == 'tilt' else 1    # the constant of the power fit is not removed by remove_power
         term = float(np.abs(A[:, :ncoef] @ coef[:ncoef]).max())
         mon = f'M3.{which}-refit'
         ctx.observe(mon)
-        name = 'remove_tiptilt' if which == 'tilt' else 'remove_power'
         if self.lowp:
             ro(f'{which}.refit-term', term / sc)
-        if not term <= self.tol(1e-9, 1e-3) * sc:
+            ro(f'{which}.refit-term/(cond*eps32)', term / sc / (cond * 1.2e-7))
+        if not term <= rtol * sc:
             ctx.violation(f'C12/{name}/refit-finds-residual-term', f're-fitting the {which} term after {name} finds a term of size {term:.3g} (data scale {sc:.3g})',
                           desc, step=pos, executed=self.executed)
             return
@@ -625,7 +703,8 @@ class History:
         e = float(np.abs(c.data[valid] - after[valid]).max()) if c.data.shape == after.shape else float('inf')
         if self.lowp:
             ro(f'{which}.second-call', e / sc)
-        if not e <= self.tol(1e-9, 1e-3) * sc:
+            ro(f'{which}.second-call/(cond*eps32)', e / sc / (cond * 1.2e-7))
+        if not e <= rtol * sc:
             ctx.violation(f'C12/{name}/not-idempotent', f'a second {name} changes the data by {e:.3g} (data scale {sc:.3g})', desc, step=pos,
                           executed=self.executed)
 
@@ -696,6 +775,277 @@ class History:
         return full
 
 
+
+# ------------------------------------------------------------------------------------------ class E: argument forms
+# Forms the CURRENT tree (/repo @ faa8443) accepts and treats as the same mathematical input (established by calling every public
+# method with every candidate form and comparing data / dx / x / y / r / t / statistics with the canonical call):
+#   constructor: dx as python float / int, numpy float32 / float64 / int64, 0-d array, positional or keyword, or omitted and followed by
+#       latcal(dx); wavelength omitted (HeNe) / None / a number / 0 with meta {'wavelength' | 'Wavelength'}; intensity None / array;
+#       data of dtype float64 / float32 for every operation, int64 / int32 for the operations that take integer data today (coordinate
+#       reads, fill, pad with a finite fill, crop, recenter, latcal, strip_latcal, filter, statistics) — mask / spike_clip / pad(NaN) /
+#       remove_* RAISE on integer data (cannot hold NaN / cannot subtract in place): out of domain; a nested list as data raises;
+#   mask: boolean ndarray, C / F ordered or a strided view, positional or keyword.  An INTEGER mask is accepted today but means something
+#       else (`~mask` is bitwise: rows -1 / -2 are selected), uint8 raises IndexError, float and list masks raise TypeError: out of domain;
+#   fill: omitted == 0, python float / int, numpy float32 / float64, 0-d array, keyword `_with=`;
+#   pad: samples = int | tuple | list | int ndarray | tuple of numpy ints | range; shape = int | tuple | list | int ndarray | tuple of numpy
+#       ints; value omitted == NaN, positional or keyword (bare numpy integers, floats and 0-d arrays for samples / shape raise TypeError);
+#   latcal: python float / int, numpy float32 / float64 / int64, 0-d array, keyword `plate_scale=`;  spike_clip: omitted == 3, keyword `nsigma=`;
+#   filter: typ omitted == 'lowpass' == 'lp', 'highpass' == 'hp'; fc python / numpy float, keyword.
+CTOR_FORMS = ['dx=py', 'dx=positional', 'dx=np64', 'dx=0d', 'dx=np32', 'dx=omitted+latcal', 'wavelength=None', 'wavelength=number', 'wavelength=meta',
+              'wavelength=meta-Wavelength', 'intensity=array', 'all-positional']
+CTOR_FORMS_INTDX = ['dx=int', 'dx=npint']
+
+
+def construct(Interferogram, z, dx, form='dx=py'):
+    dx = float(dx)
+    if form == 'dx=positional':
+        return Interferogram(z, dx)
+    if form == 'dx=np64':
+        return Interferogram(z, dx=np.float64(dx))
+    if form == 'dx=0d':
+        return Interferogram(z, dx=np.array(dx))
+    if form == 'dx=np32':
+        return Interferogram(z, dx=np.float32(dx))
+    if form == 'dx=int':
+        return Interferogram(z, dx=int(dx))
+    if form == 'dx=npint':
+        return Interferogram(z, dx=np.int64(int(dx)))
+    if form == 'dx=omitted+latcal':
+        return Interferogram(z).latcal(dx)
+    if form == 'wavelength=None':
+        return Interferogram(z, dx=dx, wavelength=None)
+    if form == 'wavelength=number':
+        return Interferogram(z, dx, 0.55)
+    if form == 'wavelength=meta':
+        return Interferogram(z, dx=dx, wavelength=0, meta={'wavelength': 0.5e-6})
+    if form == 'wavelength=meta-Wavelength':
+        return Interferogram(z, dx=dx, wavelength=None, meta={'Wavelength': 0.5e-6})
+    if form == 'intensity=array':
+        return Interferogram(z, dx=dx, intensity=np.ones(np.shape(z)), meta={'note': 1})
+    if form == 'all-positional':
+        return Interferogram(z, dx, 0.6328, None, None)
+    return Interferogram(z, dx=dx)
+
+
+def op_forms(shape, pool):
+    """{op: [(form label, callable(obj)), ...]}; the first entry of each list is the canonical call."""
+    n0, n1 = shape
+    m = pool['mask']
+    nan = float('nan')
+    F = {}
+    F['fill'] = [('canonical', lambda o: o.fill(0.0)), ('_with=omitted', lambda o: o.fill()), ('_with=int', lambda o: o.fill(0)),
+                 ('_with=np64', lambda o: o.fill(np.float64(0))), ('_with=np32', lambda o: o.fill(np.float32(0))),
+                 ('_with=0d', lambda o: o.fill(np.array(0.0))), ('_with=keyword', lambda o: o.fill(_with=0.0))]
+    F['fill2.5'] = [('canonical', lambda o: o.fill(2.5)), ('_with=np32', lambda o: o.fill(np.float32(2.5))), ('_with=0d', lambda o: o.fill(np.array(2.5))),
+                    ('_with=keyword-np64', lambda o: o.fill(_with=np.float64(2.5)))]
+    for nm, val in (('pad-nan', nan), ('pad-finite', pool.get('finite', 1.5))):
+        k0, k1 = pool['k']
+        L = [('canonical', lambda o, v=val: o.pad(v, samples=(k0, k1))),
+             ('samples=list', lambda o, v=val: o.pad(v, samples=[k0, k1])),
+             ('samples=ndarray', lambda o, v=val: o.pad(v, samples=np.array([k0, k1]))),
+             ('samples=np-ints', lambda o, v=val: o.pad(v, samples=(np.int64(k0), np.int32(k1)))),
+             ('shape=tuple', lambda o, v=val: o.pad(v, shape=(o.data.shape[0] + k0, o.data.shape[1] + k1))),
+             ('shape=list', lambda o, v=val: o.pad(v, shape=[o.data.shape[0] + k0, o.data.shape[1] + k1])),
+             ('shape=ndarray', lambda o, v=val: o.pad(v, shape=np.array([o.data.shape[0] + k0, o.data.shape[1] + k1]))),
+             ('shape=np-ints', lambda o, v=val: o.pad(v, shape=(np.int32(o.data.shape[0] + k0), np.int64(o.data.shape[1] + k1)))),
+             ('value=keyword', lambda o, v=val: o.pad(value=v, samples=(k0, k1)))]
+        if k1 == k0 + 1:
+            L.append(('samples=range', lambda o, v=val: o.pad(v, samples=range(k0, k0 + 2))))
+        if k0 == k1:
+            L.append(('samples=int', lambda o, v=val: o.pad(v, samples=k0)))
+        # shape=int only means the same when the target is square: decided at call time, else the tuple form is used
+        L.append(('shape=int-when-square', lambda o, v=val: o.pad(v, shape=o.data.shape[0] + k0) if o.data.shape[0] + k0 == o.data.shape[1] + k1
+                  else o.pad(v, shape=(o.data.shape[0] + k0, o.data.shape[1] + k1))))
+        if nm == 'pad-nan':
+            L.append(('value=omitted', lambda o: o.pad(samples=(k0, k1))))
+            L.append(('value=omitted,shape=list', lambda o: o.pad(shape=[o.data.shape[0] + k0, o.data.shape[1] + k1])))
+        F[nm] = L
+    F['latcal'] = [('canonical', lambda o: o.latcal(2.0)), ('plate_scale=int', lambda o: o.latcal(2)), ('plate_scale=np64', lambda o: o.latcal(np.float64(2))),
+                   ('plate_scale=np32', lambda o: o.latcal(np.float32(2))), ('plate_scale=npint', lambda o: o.latcal(np.int64(2))),
+                   ('plate_scale=0d', lambda o: o.latcal(np.array(2.0))), ('plate_scale=keyword', lambda o: o.latcal(plate_scale=2.0))]
+    F['spike_clip'] = [('canonical', lambda o: o.spike_clip(3.0)), ('nsigma=omitted', lambda o: o.spike_clip()), ('nsigma=int', lambda o: o.spike_clip(3)),
+                       ('nsigma=np64', lambda o: o.spike_clip(np.float64(3))), ('nsigma=0d', lambda o: o.spike_clip(np.array(3.0))),
+                       ('nsigma=keyword', lambda o: o.spike_clip(nsigma=3.0))]
+    F['spike_clip1.5'] = [('canonical', lambda o: o.spike_clip(1.5)), ('nsigma=np32', lambda o: o.spike_clip(np.float32(1.5))),
+                          ('nsigma=keyword-np64', lambda o: o.spike_clip(nsigma=np.float64(1.5)))]
+    def mk(o):      # a mask of the object's CURRENT shape (the state before the call may have cropped it)
+        return m.copy() if o.data.shape == m.shape else make_mask(pool['mask-kind'], pool['mask-seed'], o.data.shape)
+
+    F['mask'] = [('canonical', lambda o: o.mask(mk(o))), ('mask=F-order', lambda o: o.mask(np.asfortranarray(mk(o)))),
+                 ('mask=strided-view', lambda o: o.mask(relayout(mk(o), 'strided'))), ('mask=keyword', lambda o: o.mask(mask=mk(o))),
+                 ('mask=transposed-view', lambda o: o.mask(np.ascontiguousarray(mk(o).T).T))]
+    F['filter-lp'] = [('canonical', lambda o: o.filter(0.3 / (2 * float(o.dx)), 'lowpass')), ('typ=omitted', lambda o: o.filter(0.3 / (2 * float(o.dx)))),
+                      ('typ=lp', lambda o: o.filter(0.3 / (2 * float(o.dx)), 'lp')),
+                      ('fc=np64,keywords', lambda o: o.filter(fc=np.float64(0.3 / (2 * float(o.dx))), typ='lowpass'))]
+    F['filter-hp'] = [('canonical', lambda o: o.filter(0.6 / (2 * float(o.dx)), 'highpass')), ('typ=hp', lambda o: o.filter(0.6 / (2 * float(o.dx)), 'hp')),
+                      ('typ=keyword', lambda o: o.filter(0.6 / (2 * float(o.dx)), typ='hp'))]
+    return F
+
+
+def snapshot(o):
+    """What a user reads from the object now (through a deep copy: the live object's caches are not populated)."""
+    c = copy.deepcopy(o)
+    d = c.data
+    st = None
+    if d.dtype.kind == 'f' and int(np.isfinite(d).sum()) >= 1:
+        st = (float(c.pv), float(c.rms), float(c.Sa), float(c.std))
+    return {'data': d, 'dx': float(c.dx), 'x': c.x, 'y': c.y, 'r': c.r, 't': c.t, 'stats': st}
+
+
+def snap_diff(a, b, rt):
+    """Names of the parts in which two snapshots differ (data exactly, coordinates / statistics to `rt`)."""
+    out = []
+    if not (a['data'].shape == b['data'].shape and np.array_equal(a['data'], b['data'], equal_nan=a['data'].dtype.kind == 'f')):
+        da, db = np.asarray(a['data'], dtype=float), np.asarray(b['data'], dtype=float)
+        if not (da.shape == db.shape and np.array_equal(np.isnan(da), np.isnan(db))
+                and float(np.abs(np.nan_to_num(da) - np.nan_to_num(db)).max(initial=0)) <= rt * max(float(np.abs(np.nan_to_num(da)).max(initial=0)), 1e-300)):
+            out.append('data')
+    if not abs(a['dx'] - b['dx']) <= rt * abs(a['dx']):
+        out.append('dx')
+    for nm in ('x', 'y', 'r'):
+        u, v = a[nm], b[nm]
+        if not (np.shape(u) == np.shape(v) and float(np.abs(np.asarray(u, dtype=float) - np.asarray(v, dtype=float)).max(initial=0))
+                <= rt * max(float(np.abs(u).max(initial=0)), abs(a['dx']))):
+            out.append(nm)
+    if np.shape(a['t']) != np.shape(b['t']) or (np.size(a['t']) and ang_err(np.asarray(b['t'], dtype=float), np.asarray(a['t'], dtype=float),
+                                                                           np.asarray(a['r'], dtype=float)) > max(rt, 1e-12)):
+        out.append('t')
+    if (a['stats'] is None) != (b['stats'] is None):
+        out.append('statistics')
+    elif a['stats'] is not None:
+        sc = max(abs(v) for v in a['stats']) or 1.0
+        if not all(abs(u - v) <= max(rt, 1e-12) * sc for u, v in zip(a['stats'], b['stats'])):
+            out.append('statistics')
+    return out
+
+
+PRESTATES = ['fresh', 'xy-read', 'r-read', 'after-latcal+r', 'after-crop+x']
+TAILS = [(), ('latcal', 'read-r'), ('read-x', 'crop', 'read-t'), ('pad', 'recenter')]
+
+
+def _prestate(o, name):
+    if name == 'xy-read':
+        o.x, o.y
+    elif name == 'r-read':
+        o.r, o.t
+    elif name == 'after-latcal+r':
+        o.latcal(0.5)
+        o.r
+    elif name == 'after-crop+x':
+        o.crop()
+        o.x, o.t
+    return o
+
+
+def _tail(o, tail):
+    for t in tail:
+        if t == 'latcal':
+            o.latcal(3.3)
+        elif t == 'pad':
+            o.pad(0.0, samples=(1, 2))
+        elif t.startswith('read-'):
+            getattr(o, t[-1])
+        else:
+            getattr(o, t)()
+    return o
+
+
+def forms_workload(ctx):
+    """Class E: every accepted form of every argument gives the state the canonical call gives (and a coherent one), on every base,
+    for several cache-population states before the call and short canonical continuations after it."""
+    from prysm.interferogram import Interferogram
+    bases = BASES_Q if ctx.quick else BASES_T
+    dxs = [1.0, 0.37, 12.5]
+    k = -1
+    for bi, b, rep in [(bi, b, rep) for rep in range(ctx.pick(1, 9)) for bi, b in enumerate(bases)]:
+        z0 = make_base(b, ctx.seed + 7 * rep)          # thorough: nine content seeds per base, every dx
+        shape = z0.shape
+        for ci, dtype in enumerate(('float64', 'float32', 'int64', 'int32')):
+            k += 1
+            if not ctx.mine(k):
+                continue
+            dx = dxs[(bi + ci + rep) % 3]
+            if bi % 3 == 1 and ci == 0:
+                foreign_traffic(ctx, list(shape), heavy=True)
+            isint = dtype.startswith('int')
+            zz = np.nan_to_num(np.round(z0), nan=0.0).astype(dtype) if isint else z0.astype(dtype)
+            rt = 1e-12
+            # ---- constructor forms
+            canon = snapshot(Interferogram(zz.copy(), dx=dx))
+            for form in CTOR_FORMS + (CTOR_FORMS_INTDX if dx == 1.0 else []):
+                desc = {'wl': 'forms', 'base': b, 'dtype': dtype, 'dx': dx, 'op': 'construct', 'form': form, 'class': f'forms:construct|{form}|{dtype}'}
+                ctx.case(desc)
+                try:
+                    o = construct(Interferogram, zz.copy(), dx, form)
+                    snap = snapshot(o)
+                except Exception as e:
+                    ctx.violation(f'C12/construct/form:{form}/raises:{type(e).__name__}', f'constructor form {form} raises {type(e).__name__}: {str(e)[:120]}', desc)
+                    continue
+                ctx.observe('forms.construct')
+                diff = snap_diff(canon, snap, 1e-4 if form == 'dx=np32' else rt)
+                probs = coords_problems(shape, o.dx, snap['x'], snap['y'], snap['r'], snap['t'], 1e-9)
+                if diff or probs:
+                    ctx.violation(f'C12/construct/form:{form}/' + ('differs-from-canonical' if diff else 'coords-incoherent'),
+                                  f'Interferogram constructed with {form} differs from Interferogram(data, dx=python float) in {diff} / {[p[0] for p in probs]}', desc,
+                                  differs=diff)
+            # ---- operation forms
+            rng = np.random.default_rng([ctx.seed, 12, bi, ci])
+            mkind = ['circle', 'random', 'edge'][(bi + ci) % 3]
+            pool = {'mask': make_mask(mkind, 1 + bi, shape), 'mask-kind': mkind, 'mask-seed': 1 + bi,
+                    'k': [(1, 2), (2, 2), (3, 1), (0, 3), (1, 1)][(bi + ci) % 5], 'finite': 2 if isint else 1.5}
+            if pool['k'][0] + shape[0] == pool['k'][1] + shape[1] + 1:
+                pool['k'] = (pool['k'][0], pool['k'][1] + 1)        # a square target now and then
+            OF = op_forms(shape, pool)
+            for opn, forms in OF.items():
+                if isint and opn in ('pad-nan', 'mask', 'spike_clip', 'spike_clip1.5'):
+                    ctx.skip('forms: operation raises on integer data on the current tree (cannot hold NaN): out of domain')
+                    continue
+                if opn.startswith('filter') and (not np.isfinite(zz.astype(float)).all() or min(shape) < 3):
+                    ctx.skip('forms: filter on data with NaNs / fewer than 3 rows or columns (out of domain)')
+                    continue
+                if opn.startswith('spike_clip') or opn == 'mask':
+                    if int(np.isfinite(zz.astype(float)).sum()) < 3:
+                        continue
+                for pi, pre in enumerate(PRESTATES):
+                    if not ctx.quick or (pi + bi + len(opn)) % 2 == 0 or pre == 'fresh':
+                        pass
+                    else:
+                        continue
+                    tail = TAILS[(pi + bi + len(opn)) % len(TAILS)]
+                    ref = None
+                    for form, call in forms:
+                        desc = {'wl': 'forms', 'base': b, 'dtype': dtype, 'dx': dx, 'op': opn, 'form': form, 'before': pre, 'then': list(tail),
+                                'class': f'forms:{opn}|{form}|{dtype}'}
+                        ctx.case(desc, nontrivial=form != 'canonical')
+                        try:
+                            o = _prestate(Interferogram(zz.copy(), dx=dx), pre)
+                            call(o)
+                            s1 = snapshot(o)
+                            _tail(o, tail)
+                            s2 = snapshot(o)
+                        except Exception as e:
+                            if form == 'canonical':
+                                ctx.skip(f'forms: canonical {opn} raised {type(e).__name__} in this state (judged by the history workload)')
+                                break
+                            ctx.violation(f'C12/{opn.split("-")[0].rstrip("0123456789.")}/form:{form}/raises:{type(e).__name__}',
+                                          f'{opn} called as {form} raises {type(e).__name__} where the canonical call does not: {str(e)[:120]}', desc)
+                            continue
+                        if form == 'canonical':
+                            ref = (s1, s2)
+                            if any(coords_problems(q['data'].shape, q['dx'], q['x'], q['y'], q['r'], q['t'], 1e-9) for q in ref):
+                                ctx.skip('forms: the canonical call itself leaves incoherent coordinates (judged by the history workload), forms not compared')
+                                break
+                            continue
+                        ctx.observe('forms.operations')
+                        lowrt = 1e-4 if 'np32' in form else rt
+                        d1, d2 = snap_diff(ref[0], s1, lowrt), snap_diff(ref[1], s2, lowrt)
+                        probs = coords_problems(s2['data'].shape, s2['dx'], s2['x'], s2['y'], s2['r'], s2['t'], 1e-9)
+                        if d1 or d2 or probs:
+                            where = 'differs-from-canonical' if d1 else 'later-steps-differ' if d2 else 'coords-incoherent'
+                            ctx.violation(f'C12/{opn.split("-")[0].rstrip("0123456789.")}/form:{form}/{where}',
+                                          f'{opn} called as {form} (object {pre}) leaves another state than the canonical call: right after {d1}, after {list(tail)} {d2}, '
+                                          f'coordinate problems {[p[0] for p in probs]}', desc)
+
 # ------------------------------------------------------------------------------------------ workload
 def plan_sequences(ctx):
     """Global (shard-independent) list of planned op-class sequences: exhaustive to a depth, then random, deduplicated."""
@@ -706,7 +1056,7 @@ def plan_sequences(ctx):
     nexh = len(seqs)
     seen = set(seqs)
     rng = np.random.default_rng([ctx.seed, 12, 0xC12])
-    nrand = ctx.pick(1200, 40000)
+    nrand = ctx.pick(1200, 60000)
     lo, hi = depth + 1, ctx.pick(8, 18)
     tries = 0
     while len(seqs) < nexh + nrand and tries < 20 * nrand:
@@ -767,9 +1117,13 @@ def _run(ctx):
             vr = np.random.default_rng([ctx.seed, j, sum(map(ord, b)), int(dx * 100)])
             ops = [draw_variant(OPS[i], vr) for i in s]
             layout = LAYOUTS[hcount % len(LAYOUTS)]
+            cforms = CTOR_FORMS + (CTOR_FORMS_INTDX if dx == 1.0 else [])
+            ctor = cforms[(hcount // 2) % len(cforms)] if hcount % 2 else 'dx=py'           # class E: constructor argument forms
+            if hcount % 16 == 7:
+                foreign_traffic(ctx, list(BASE_SHAPE[b]), heavy=(hcount % 64 == 7))        # class F prelude, same axis lengths
             for prec, dtype in CONFIGS.get(hcount % 6, [(64, 'float64')]):
                 desc = {'class': f'{b}|len={len(s)}|p{prec}/{dtype}', 'base': b, 'bseed': ctx.seed, 'dx': dx, 'ops': ops, 'layout': layout,
-                        'prec': prec, 'dtype': dtype}
+                        'prec': prec, 'dtype': dtype, 'ctor': ctor}
                 ctx.case(desc, nontrivial=any(op_class(o) not in READS for o in ops))
                 h = History(ctx, desc)
                 full = h.run()
@@ -790,6 +1144,7 @@ def _run(ctx):
 
 def run(ctx):
     _run(ctx)
+    forms_workload(ctx)
 
 
 def replay(ctx, rec):
